@@ -7,6 +7,8 @@ import NodisVerif.Proofs.C04Spec
 import NodisVerif.Proofs.C04Rem
 import NodisVerif.Proofs.C04ScoreSpec
 import NodisVerif.Proofs.C04Rank
+import NodisVerif.Proofs.C08Step
+import NodisVerif.Model.Handler3
 /-
   C04 — sorted sets stay ordered by (score, member); rank, range and score agree.
 
@@ -429,6 +431,37 @@ example : RankRegion 0 (-1) (zCard abc) ∧ RankRegion 0 (-2) (zCard abc) ∧ Ra
     RevRankRegion 2 2 (zCard abc + 1) ∧ ¬ RankRegion 0 0 (zCard abc) ∧ ¬ RankRegion 1 2 (zCard abc) := by
   decide
 
+/-! ## the command layer: which bound an exclusive mark belongs to
+
+  The theorems above are about the API functions and their mode bits. The handlers turn the text of the
+  bounds into those bits; with REV (and in ZREVRANGEBYSCORE) the FIRST bound is the maximum. The handlers had
+  the two marks crossed in the reversed forms (repaired: `fix:` in known_findings.json); the model had
+  mirrored that. These witnesses pin the repaired behaviour end to end through the dispatch table
+  (z = {a:1, b:2, c:3, d:4}). -/
+section handlers
+open NodisVerif.Proofs.C08Step Resp Server
+
+private def zk : Bytes := [122]
+private def b (s : String) : Bytes := Bytes.ofString s
+private def zsetup : Cmd := { id := "c", name := "ZADD", args := [zk, b "1", b "a", b "2", b "b", b "3", b "c", b "4", b "d"] }
+private def q (name : String) (args : List String) : Cmd := { id := "c", name := name, args := zk :: args.map b }
+private def reply (c : Cmd) : List Tok := ((run Handler3.table3 { store := {} } [zsetup, c]).2.getD 1 [])
+private def names (l : List String) : List Tok := Tok.arr l.length :: l.map fun x => Tok.bulk (b x)
+
+/-- ZREVRANGEBYSCORE z 4 (1: the maximum 4 is included, the minimum 1 is excluded -/
+theorem zrevrangebyscore_exclusive_min : reply (q "ZREVRANGEBYSCORE" ["4", "(1"]) = names ["d", "c", "b"] := by decide +kernel
+/-- ZREVRANGEBYSCORE z (4 1: the maximum 4 is excluded, the minimum 1 is included -/
+theorem zrevrangebyscore_exclusive_max : reply (q "ZREVRANGEBYSCORE" ["(4", "1"]) = names ["c", "b", "a"] := by decide +kernel
+theorem zrevrangebyscore_both_exclusive : reply (q "ZREVRANGEBYSCORE" ["(4", "(1"]) = names ["c", "b"] := by decide +kernel
+/-- the same through ZRANGE ... BYSCORE REV, and the forward forms for comparison -/
+theorem zrange_byscore_rev_exclusive_min : reply (q "ZRANGE" ["4", "(1", "BYSCORE", "REV"]) = names ["d", "c", "b"] := by decide +kernel
+theorem zrange_byscore_rev_exclusive_max : reply (q "ZRANGE" ["(4", "1", "BYSCORE", "REV"]) = names ["c", "b", "a"] := by decide +kernel
+theorem zrangebyscore_exclusive_min : reply (q "ZRANGEBYSCORE" ["(1", "4"]) = names ["b", "c", "d"] := by decide +kernel
+theorem zrangebyscore_exclusive_max : reply (q "ZRANGEBYSCORE" ["1", "(4"]) = names ["a", "b", "c"] := by decide +kernel
+theorem zrange_byscore_exclusive_min : reply (q "ZRANGE" ["(1", "4", "BYSCORE"]) = names ["b", "c", "d"] := by decide +kernel
+
+end handlers
+
 /- UNPROVED (not needed for any theorem above, listed for completeness):
    * Exactness ("only if") of `RankRegion` / `RevRankRegion`: outside these regions the model is
      given in closed form (`zrange_model_closed_form`, `zrevrange_model_closed_form`,
@@ -438,6 +471,9 @@ example : RankRegion 0 (-1) (zCard abc) ∧ RankRegion 0 (-2) (zCard abc) ∧ Ra
    * `start < -2^62` (int64 wrap-around of `stop - start`) is excluded from
      `zrange_negative_start_closed_form`.
    * ZSCAN (also built on `forEachByRank`) is not part of the property text and is not treated.
+   * The command layer (text of bounds, LIMIT, WITHSCORES, option positions → arguments of the API functions) is
+     tied to the code by the RESP streams and pinned by witnesses only; there is no general theorem relating
+     the handlers' parsing to the reference semantics.
 -/
 
 end NodisVerif.C04
